@@ -59,7 +59,9 @@ class HistoryConceptDrift(BaseCallbackStreaming):
         :param vars_: list of variables
         :type vars_: list[str]
         """
-        self.additional_vars.extend(vars_)
+        self.additional_vars.extend(
+            var for var in vars_ if var not in self.additional_vars
+        )
         self.history = {**self.history, **{var: [] for var in self.additional_vars}}
 
     def on_update_end(self, value: Union[int, float]) -> None:
